@@ -1544,4 +1544,99 @@ theorem accepts_iff_50H (s : Text) :
       | err => rw [ha] at hacc; cases hacc
       | panic => rw [ha] at hacc; cases hacc
 
+/-! ### 59 and 59A: the account line is `/` + 1..34 x; a longer `/…` line is not an account (and then fails as a name line / BIC) -/
+
+theorem acctLenient_some_iff (l : Text) : (∃ a, acctLenient l = .ok (some a)) ↔ Doc.AccountLine l := by
+  unfold acctLenient Doc.AccountLine
+  constructor
+  · rintro ⟨a, h⟩
+    split at h
+    · rename_i id
+      split at h; · cases h
+      rename_i hne
+      split at h
+      · rename_i hlen
+        split at h
+        · rename_i hx
+          cases h
+          exact ⟨a, rfl, xtext_of_checks 34 a hlen (by simpa using hne) hx⟩
+        · cases h
+      · cases h
+    · cases h
+  · rintro ⟨a, rfl, hx⟩
+    obtain ⟨h1, h2, h3⟩ := checks_of_xtext 34 a hx
+    exact ⟨a, by simp [h1, h2, h3]⟩
+
+/-- 59A: `[account line] BIC` -/
+theorem accepts_59A_of_doc (s : Text) (h : Doc.Bic s ∨ ∃ l b, s = l ++ '\n' :: b ∧ Doc.AccountLine l ∧ Doc.Bic b) :
+    (F59A.parse s).isOk = true := by
+  rcases h with hb | ⟨l, b, rfl, hl, hb⟩
+  · have hnonl : ∀ c ∈ s, c ≠ '\n' := fun c hc => (upperOrDigit_not_nl_slash c (bic_chars s hb c hc)).1
+    have hok := (accepts_iff_bic s).mpr hb
+    have hhead := bic_head_not_slash s hb
+    have hnone : acctLenient s = .ok none := by
+      unfold acctLenient
+      split
+      · simp at hhead
+      · rfl
+    unfold F59A.parse
+    rw [splitNl_no_nl s hnonl]
+    simp only [hnone]
+    cases hp : parseBic s with
+    | ok bic => simp [Res.isOk]
+    | err => rw [hp] at hok; cases hok
+    | panic => rw [hp] at hok; cases hok
+  · have hlnl := accountLine_no_nl l hl
+    have hbnl : ∀ c ∈ b, c ≠ '\n' := fun c hc => (upperOrDigit_not_nl_slash c (bic_chars b hb c hc)).1
+    obtain ⟨a, ha⟩ := (acctLenient_some_iff l).mpr hl
+    have hok := (accepts_iff_bic b).mpr hb
+    unfold F59A.parse
+    rw [splitNl_append_nl l b hlnl, splitNl_no_nl b hbnl]
+    simp only [ha]
+    cases hpb : parseBic b with
+    | ok bic => simp [Res.isOk]
+    | err => rw [hpb] at hok; cases hok
+    | panic => rw [hpb] at hok; cases hok
+
+/-- 59: name-and-address lines, optionally preceded by an account line -/
+theorem accepts_59_of_doc (s : Text)
+    (h : (∃ ls, s = joinNl ls ∧ Doc.NameLines ls ∧ (ls.head?.bind List.head?) ≠ some '/') ∨
+         (∃ l ls, s = joinNl (l :: ls) ∧ Doc.AccountLine l ∧ Doc.NameLines ls)) :
+    (F59.parse s).isOk = true := by
+  rcases h with ⟨ls, rfl, hn, hh⟩ | ⟨l, ls, rfl, hl, hn⟩
+  · have hne : ls ≠ [] := by intro he; subst he; have := hn.1; simp at this
+    have hsp := splitNl_joinNl ls hne (nameLines_no_nl ls hn)
+    cases ls with
+    | nil => exact absurd rfl hne
+    | cons l0 rest =>
+      simp only [List.head?_cons, Option.bind_some] at hh
+      have hok := (nameAddr_accepts_iff (l0 :: rest)).mpr hn
+      have hnone : acctLenient l0 = .ok none := by
+        unfold acctLenient
+        split
+        · simp at hh
+        · rfl
+      unfold F59.parse
+      rw [hsp]
+      simp only [hnone]
+      cases hp : parseNameAndAddress (l0 :: rest) 0 with
+      | ok v => simp [Res.isOk]
+      | err => rw [hp] at hok; cases hok
+      | panic => rw [hp] at hok; cases hok
+  · have hlnl := accountLine_no_nl l hl
+    have hsp := splitNl_joinNl (l :: ls) (by simp) (by
+      intro x hx
+      rcases List.mem_cons.mp hx with rfl | hx
+      · exact hlnl
+      · exact nameLines_no_nl ls hn x hx)
+    obtain ⟨a, ha⟩ := (acctLenient_some_iff l).mpr hl
+    have hok := (nameAddr_accepts_iff ls).mpr hn
+    unfold F59.parse
+    rw [hsp]
+    simp only [ha]
+    cases hpn : parseNameAndAddress ls 0 with
+    | ok v => simp [Res.isOk]
+    | err => rw [hpn] at hok; cases hok
+    | panic => rw [hpn] at hok; cases hok
+
 end SwiftMT.Props.C05
